@@ -270,7 +270,9 @@ func (pc *primChecker) fromRemGetter(fn *ssa.Function, site ssa.Instruction, v s
 	if cal == nil || !pc.remAtRet[cal.Name()] || !pc.e.errOK(c, site.Block()) {
 		return false
 	}
-	adv := func(it Item) bool { return it.In != nil && it.In != site && it.In != ssa.Instruction(c) && pc.isAdvance(it.In) }
+	adv := func(it Item) bool {
+		return it.In != nil && it.In != site && it.In != ssa.Instruction(c) && pc.isAdvance(it.In)
+	}
 	reg := WholeFn(fn).From(Item{In: c}.After())
 	for _, a := range reg.Find(adv) {
 		if hit, _ := reg.From(a.After()).Reach(Is(site), nil); !hit.IsZero() {
@@ -780,7 +782,10 @@ func c10Cap(c *Ctx) {
 					continue
 				}
 				// header buffer: size from getHeaderLength (8 or 9)
-				if derivesFrom(mk.Len, func(v ssa.Value) bool { cl, ok := v.(*ssa.Call); return ok && p.CalleeName(&cl.Call) == "getHeaderLength" }, 0) && !derivesFrom(mk.Len, FieldLoad("responseHeader.length"), 0) {
+				if derivesFrom(mk.Len, func(v ssa.Value) bool {
+					cl, ok := v.(*ssa.Call)
+					return ok && p.CalleeName(&cl.Call) == "getHeaderLength"
+				}, 0) && !derivesFrom(mk.Len, FieldLoad("responseHeader.length"), 0) {
 					continue
 				}
 				n++
